@@ -39,17 +39,51 @@ def run(tier):
         return v.finish()
     tables = corpus.quick_tables() if tier == "quick" else corpus.all_tables()
     n = 2 if tier == "quick" else 8
+    nt = 6 if tier == "quick" else 30
+    vocab = corpus.table_vocab(exe, tables)
     cases = []
+    togg = []
+
+    def gen_input(t, back):
+        vv = vocab.get(t)
+        if back:
+            u = vv.braille(rng, 18) if (vv and vv.by_op and rng.random() < 0.6) else corpus.rand_braille(rng, 18, dots_io=True)
+            return u, rng.choice([4, 4 | 256, 4 | 128])
+        u = vv.text(rng, 18) if (vv and vv.by_op and rng.random() < 0.6) else corpus.rand_input(rng, 18)
+        return u, rng.choice([0, 0, 1, 4, 128, 4 | 64])
+
+    for ti, t in enumerate(tables):
+        # single-argument toggles on many table-specific inputs (rule strings of the table itself): none present vs
+        # exactly one present; the cursor at several positions
+        ops = []
+        for _ in range(nt):
+            for back in (False, True):
+                u, mode = gen_input(t, back)
+                if not u:
+                    continue
+                cap = rng.choice([len(u), 2 * len(u) + 3, 32 * len(u) + 256, 32 * len(u) + 256])
+                curs = sorted(set([0, len(u) - 1] + [rng.randint(0, len(u) - 1) for _ in range(4)]))
+                pats = [(0, 0), (1, 0), (2, 0), (4, 0), (8, 0)] + [(16, c) for c in curs]
+                grp = []
+                for am, cur in pats:
+                    if back:
+                        grp.append(st.gen_bwd_op(rng, t, u, mode=mode, cap=cap, argmask=am, cursor=cur))
+                    else:
+                        op = st.gen_fwd_op(rng, t, inp=u, mode=mode, cap=cap, argmask=am, cursor=cur)
+                        tt = op.split(" ")
+                        if am & 1:
+                            tt[7] = common.wide([0] * len(u))
+                        if am & 2:
+                            tt[8] = common.hexbytes(b"*" * (len(u) + 1))
+                        grp.append(" ".join(tt))
+                ops.append(grp)
+        c = common.Case("c10t-%d" % ti, ["HOOK trace 1"], [o for g in ops for o in g], {"table": t, "groups": [len(g) for g in ops]})
+        togg.append(c)
     for ti, t in enumerate(tables):
         ops = []
         for _ in range(n):
             for back in (False, True):
-                if back:
-                    u = corpus.rand_braille(rng, 18, dots_io=True)
-                    mode = rng.choice([4, 4 | 256, 4 | 128])
-                else:
-                    u = corpus.rand_input(rng, 18)
-                    mode = rng.choice([0, 0, 1, 4, 128, 4 | 64])
+                u, mode = gen_input(t, back)
                 cap = st.caps_for(rng, len(u))
                 cur = rng.randint(0, max(len(u) - 1, 0))
                 for am in range(32):
@@ -71,8 +105,39 @@ def run(tier):
                     ops.append(st.gen_fwd_op(rng, t, inp=u, mode=mode, cap=cap, argmask=32, cursor=cur))
                     ops.append(st.gen_fwd_op(rng, t, inp=u, mode=mode, cap=cap, argmask=64 | 28, cursor=cur))
         cases.append(common.Case("c10-%d" % ti, ["HOOK trace 1"], ops, {"table": t}))
-    common.run_cases(exe, cases, batch=4, timeout=300)
+    common.run_cases(exe, cases + togg, batch=4, timeout=300)
     ngroups = 0
+    ntog = 0
+    for c in togg:
+        t = c.meta["table"]
+        i = 0
+        for size in c.meta["groups"]:
+            grp = list(zip(c.ops[i:i + size], c.out[i:i + size]))
+            i += size
+            if len(grp) < size:
+                break
+            Rs = [common.parse_R(o) for _, o in grp]
+            if any(r is None for r in Rs):
+                continue
+            back = grp[0][0].startswith("BWD")
+            ntog += 1
+            v.cov["evaluations"] += size
+            if Rs[0]["out"]:
+                v._distinct.add((t, back, grp[0][0].split(" ")[2], tuple(Rs[0]["out"])))
+            for k in range(1, size):
+                am = int(grp[k][0].split(" ")[5])
+                what = {1: "typeform", 2: "spacing", 4: "outputPos", 8: "inputPos", 16: "cursorPos"}[am]
+                if core(Rs[k]) != core(Rs[0]):
+                    v.violation("C10:core:%s:args:%s" % ("back" if back else "fwd", what),
+                                "supplying %s (and nothing else) changes (ret, inlen, outlen, output) relative to all optional "
+                                "arguments NULL | table=%s" % (what, t),
+                                {"script": c.setup + [grp[0][0], grp[k][0]], "results": [grp[0][1][:1200], grp[k][1][:1200]]})
+                    break
+                if stages(Rs[k]) != stages(Rs[0]):
+                    v.violation("C10:stages:%s:%s" % ("back" if back else "fwd", what),
+                                "supplying %s changes what a stage emitted/mapped/consumed | table=%s" % (what, t),
+                                {"script": c.setup + [grp[0][0], grp[k][0]], "results": [grp[0][1][:1200], grp[k][1][:1200]]})
+                    break
     for c in cases:
         t = c.meta["table"]
         i = 0
@@ -109,9 +174,9 @@ def run(tier):
                 v.sample({"all_present": grp[31][0][:200], "none": grp[0][0][:200], "result": grp[31][1].split(" | ")[0][:200]})
         if c.fault:
             v.notes.append("fault during C10 run (memory faults are decided by C01/C02): %s %s" % (c.fault["kind"], c.fault["frame"]))
-    v.cov["distribution"] = {"groups_of_32_patterns": ngroups, "tables": len(tables)}
+    v.cov["distribution"] = {"groups_of_32_patterns": ngroups, "single_toggle_groups": ntog, "tables": len(tables)}
     v.cov["traces_validated_against_impl"] = ngroups * 32
     v.cov["exhaustive"] = False
-    v.cov["rule"] = ("for each (table, direction, input, mode without compbrl bits, capacity, cursor) all 2^5 presence patterns of "
-                     "(typeform all-zero vs NULL, spacing, outputPos, inputPos, cursorPos) plus the wrappers; distinct by (table, direction, mode, output)")
+    v.cov["rule"] = ("inputs: rule strings of the table itself (from DUMP) joined into phrases, yaml corpus words, random; for each (table, direction, input, mode without compbrl bits, capacity, cursor) all 2^5 presence patterns of "
+                     "(typeform all-zero vs NULL, spacing, outputPos, inputPos, cursorPos) plus the wrappers; plus single-argument toggles (none vs exactly one, cursor at up to 6 positions) on further table-specific inputs; distinct by (table, direction, mode, output)")
     return v.finish()
